@@ -1,6 +1,7 @@
 package main
 
 import (
+	"os"
 	"fmt"
 	"go/constant"
 	"go/token"
@@ -656,6 +657,18 @@ func (fr *Frame) run(entryReach Term, entrySt *State) {
 		}
 		if li != nil {
 			fr.enterLoop(li, ins)
+		}
+		if os.Getenv("GOVC_BLOCKCOVER") != "" && fr.vc.lemma == nil {
+			// audit aid (not part of any check): is this block reachable in the VC at all?
+			pos := token.NoPos
+			for _, in := range b.Instrs {
+				if in.Pos().IsValid() {
+					pos = in.Pos()
+					break
+				}
+			}
+			o := fr.vc.coverRel(fmt.Sprintf("%s/cover.block@%s.b%d(%s)", relFuncName(fr.vc.fn), fr.key, b.Index, b.Comment), fr.pos(pos), fr.reach, nil)
+			o.Kind = "blockcover"
 		}
 		fr.execBlock(b)
 	}
